@@ -64,17 +64,17 @@ Next == UNCHANGED val
 Spec == Init /\ [][Next]_val
 
 \* ---- the laws
-WellFormed == IsLLSD(val) /\ Canon(val) = val
-BinRoundTrip == DenotesBin(WireBytes, DT) = val
-BinDocRoundTrip == /\ DenotesBin(BinDoc(ToWire(val, DT)), DT) = val
-                   /\ DenotesBin(HdrCpp \o <<10>> \o WireBytes, DT) = val
+WellFormed == IsLLSD(val) /\ Same(Canon(val), val)
+BinRoundTrip == Same(DenotesBin(WireBytes, DT), val)
+BinDocRoundTrip == /\ Same(DenotesBin(BinDoc(ToWire(val, DT)), DT), val)
+                   /\ Same(DenotesBin(HdrCpp \o <<10>> \o WireBytes, DT), val)
 \* self-delimiting: the value ends where the format says, junk behind it is not swallowed,
 \* no proper prefix is a document
 BinFraming == /\ LET r == PBin(WireBytes \o <<93, 7>>, 1) IN r.ok /\ r.i = Len(WireBytes) + 1
               /\ ParseBin(WireBytes \o <<33>>) = Err
               /\ \A k \in 0..(Len(WireBytes) - 1) : ParseBin(Sub(WireBytes, 1, k)) = Err
-NotRoundTrip == DenotesNot(Not(val, RT), RT) = val
-NotAltRoundTrip == DenotesNot(NotAlt(val, RT), RT) = val
+NotRoundTrip == Same(DenotesNot(Not(val, RT), RT), val)
+NotAltRoundTrip == Same(DenotesNot(NotAlt(val, RT), RT), val)
 NotNoNewline == NoRawNewline(Not(val, RT))
 \* vacuity guard for NotNoNewline: some value does contain a newline in a string
 HasNewlineString == \E k \in 1..Len(WireBytes) : WireBytes[k] = 10
